@@ -91,11 +91,33 @@ func runHarness(w *World, verif, tier string, seed int, h harnessSpec) boundedRe
 	return res
 }
 
+const managerBound = "the real loadTasks against an in-memory PostgreSQL stand-in (pgproto3 over net.Pipe): two integration names each absent / enabled / disabled in the file and in the database (81 mixes) x 4 source-reference sets (one source with start and stop, two sources incl. one defined in both file and database, an unknown source, a known plus an unknown source): exactly one task per enabled integration (file wins on a clash) and referenced source, with the source's chain id, batch size and concurrency (file wins) and the reference's start/stop; an unknown source is an error; plus a second family: a file decoded from text and four database rows that differ from one another (source, range incl. stop == start and stop < start, event, missing enabled key) in 7 subsets/orders, sources setting only batch size or only concurrency: every task has its own integration's source, range, settings and topic filter (independently known Keccak-256 of the declared signature)"
+
+const confdecBound = "the documented configuration keys decoded the way cmd/shovel and config.Integrations do: 18 dashboard switch/password combinations, 5 start spellings x 8 stop spellings of a source reference (number, quoted, $ENV, absent; stop == start, stop < start, 2^64-1) next to a fully specified source and a second integration, file document and database row, 4 batch-size/concurrency combinations: every value arrives in its own field"
+
+func confdecCheck(w *World, tier string, seed int, verif string) []boundedResult {
+	return []boundedResult{runHarness(w, verif, tier, seed, harnessSpec{
+		name: "config-decoding", pkg: "shovel/config", pkgName: "config", dir: "confdec", files: []string{"confdec_bounded_test.go"}, run: "TestVerifConfDecBounded",
+		bound: confdecBound,
+	})}
+}
+
+func managerCheck(name string) func(w *World, tier string, seed int, verif string) []boundedResult {
+	return func(w *World, tier string, seed int, verif string) []boundedResult {
+		return []boundedResult{runHarness(w, verif, tier, seed, harnessSpec{
+			name: name, pkg: "shovel", pkgName: "shovel", dir: "manager", files: []string{"fakepg_test.go", "loadtasks_bounded_test.go"}, run: "TestVerifLoadTasksBounded",
+			bound: managerBound,
+		})}
+	}
+}
+
+const depsBound = "every assignment of {no reference, reference to A, B or C} to three event inputs and two block fields (4^5 = 1024) x two declaration orders x 3 variants (plain, index already declared, A and B sharing one table) through the real ValidateFix: Dependencies is exactly the set of referenced integrations, each referenced table gets an index on the referenced column, each reference (event input or block field) gets the referenced table's name; two dependents of one integration"
+
 func init() {
 	boundedChecks["C07"] = append(boundedChecks["C07"], func(w *World, tier string, seed int, verif string) []boundedResult {
 		return []boundedResult{runHarness(w, verif, tier, seed, harnessSpec{
 			name: "corrupted-responses", pkg: "dig", pkgName: "dig", dir: "plan", files: []string{"plan_bounded_test.go", "corrupt_bounded_test.go"}, run: "TestVerifCorruptBounded",
-			bound: "11 data plans (headers, blocks, receipts, logs, traces and combinations) x ranges 1..3 x single corruptions per RPC method (reorder, duplicate, drop, null result, error member, HTTP 500, HTTP 404/301 with a well-formed body, truncated body, renumbered block, broken parent hash, receipt naming another block, log out of range, logs naming another fork's block hash) against the real jrpc2.Client.Get + row builder: either an error, or complete and correctly placed data; a non-2xx status must always be an error",
+			bound: "11 data plans (headers, blocks, receipts, logs, traces and combinations) x ranges 1..3 x single corruptions per RPC method (reorder, duplicate, drop, null result, error member, HTTP 500, HTTP 404/301 with a well-formed body, truncated body, renumbered block, broken parent hash, receipt naming another block, log out of range, logs naming another fork's block hash) against the real jrpc2.Client.Get + row builder: either an error, or complete and correctly placed data; a non-2xx status must always be an error; plus a lagging node whose head lies inside the requested range (11 plans x 3 positions)",
 		}), runHarness(w, verif, tier, seed, harnessSpec{
 			name: "null-head-poll", pkg: "dig", pkgName: "dig", dir: "plan", files: []string{"nullhead_bounded_test.go"}, run: "TestVerifNullHeadBounded",
 			bound: "a node answering the head and hash requests with a null result, a missing result or an error member: Client.Latest, Client.Hash and the background poller started by Latest (5 ms period, several rounds) must report errors; a crash of the poller fails the stand-in",
@@ -125,6 +147,18 @@ func init() {
 			bound: "real Input.Selected / Event.Selected vs an independent specification for all input trees of depth <= 2 with <= 2 components per node, every selection/indexed pattern (second component thinned to a third at the top level), and a thinned set of two-input events",
 		})}
 	})
+	boundedChecks["C16"] = append(boundedChecks["C16"], func(w *World, tier string, seed int, verif string) []boundedResult {
+		return []boundedResult{runHarness(w, verif, tier, seed, harnessSpec{
+			name: "printed-definitions", pkg: "cmd/shovel", pkgName: "main", dir: "printschema", files: []string{"printschema_bounded_test.go"}, run: "TestVerifPrintSchemaBounded",
+			bound: "cmd/shovel built from the tree under check and run with -print-schema on 5 configurations (two integrations sharing a table with different columns in both orders, a third on its own table, subsets): the printed statements executed against a model of 'create table if not exists' (first definition wins) leave every column and unique-key column an integration writes present in its table",
+		})}
+	})
+	boundedChecks["C15"] = append(boundedChecks["C15"], func(w *World, tier string, seed int, verif string) []boundedResult {
+		return []boundedResult{runHarness(w, verif, tier, seed, harnessSpec{
+			name: "dashboard-submission", pkg: "shovel/web", pkgName: "web", dir: "web", files: []string{"save_bounded_test.go"}, run: "TestVerifSaveIntegrationBounded",
+			bound: "the real web.SaveIntegration handler with a nil database pool: 11 SQL-text positions of a submitted integration (names, table, column, type, unique, index, notification column, filter references on block fields, inputs and nested components) x 4 hostile strings must be answered with an error before the INSERT is reached; the same submission with a harmless string must reach it (55 cases)",
+		})}
+	})
 	boundedChecks["C15"] = append(boundedChecks["C15"], func(w *World, tier string, seed int, verif string) []boundedResult {
 		return []boundedResult{runHarness(w, verif, tier, seed, harnessSpec{
 			name: "config-strings-vs-sql-text", pkg: "shovel/config", pkgName: "config", dir: "sqlsafe", files: []string{"sqlsafe_bounded_test.go"}, run: "TestVerifSQLSafeBounded",
@@ -140,7 +174,14 @@ func init() {
 	boundedChecks["C05"] = append(boundedChecks["C05"], func(w *World, tier string, seed int, verif string) []boundedResult {
 		return []boundedResult{runHarness(w, verif, tier, seed, harnessSpec{
 			name: "dependencies-derivation", pkg: "shovel/config", pkgName: "config", dir: "deps", files: []string{"deps_bounded_test.go"}, run: "TestVerifDepsBounded",
-			bound: "every assignment of {no reference, reference to A, B or C} to three event inputs and two block fields (4^5 = 1024) x two declaration orders through the real ValidateFix: Dependencies is exactly the set of referenced integrations, each referenced table gets an index on the referenced column, each reference gets the referenced table's name",
+			bound: depsBound,
+		})}
+	})
+	// a reference filter can only be evaluated if ValidateFix resolved its table
+	boundedChecks["C12"] = append(boundedChecks["C12"], func(w *World, tier string, seed int, verif string) []boundedResult {
+		return []boundedResult{runHarness(w, verif, tier, seed, harnessSpec{
+			name: "dependencies-derivation", pkg: "shovel/config", pkgName: "config", dir: "deps", files: []string{"deps_bounded_test.go"}, run: "TestVerifDepsBounded",
+			bound: depsBound,
 		})}
 	})
 	boundedChecks["C11"] = append(boundedChecks["C11"], func(w *World, tier string, seed int, verif string) []boundedResult {
@@ -152,12 +193,11 @@ func init() {
 			bound: "every field name of the row builder (read from the source) alone and in every ordered pair, in tx, log and trace indexing mode, through the real dig.New -> Filter -> jrpc2.Client.Get -> Integration.Insert against a scripted JSON-RPC node in which every field of every item (2 transactions, 2 trace actions each) has a distinct non-zero value: each stored column must equal the value of the field it names for that very item; plus 30 ordered pairs of data plans on one shared client; plus batches of 3 with blocks without transactions; thorough tier: plus 1200 seeded random sets of 3..8 fields",
 		})}
 	})
-	boundedChecks["C20"] = append(boundedChecks["C20"], func(w *World, tier string, seed int, verif string) []boundedResult {
-		return []boundedResult{runHarness(w, verif, tier, seed, harnessSpec{
-			name: "tasks-exactly-configured", pkg: "shovel", pkgName: "shovel", dir: "manager", files: []string{"fakepg_test.go", "loadtasks_bounded_test.go"}, run: "TestVerifLoadTasksBounded",
-			bound: "the real loadTasks against an in-memory PostgreSQL stand-in (pgproto3 over net.Pipe): two integration names each absent / enabled / disabled in the file and in the database (81 mixes) x 4 source-reference sets (one source with start and stop, two sources incl. one defined in both file and database, an unknown source, a known plus an unknown source): exactly one task per enabled integration (file wins on a clash) and referenced source, with the source's chain id, batch size and concurrency (file wins) and the reference's start/stop; an unknown source is an error",
-		})}
-	})
+	boundedChecks["C20"] = append(boundedChecks["C20"], managerCheck("tasks-exactly-configured"), confdecCheck)
+	// the range a task runs over and the event it decodes come from the same construction path
+	boundedChecks["C06"] = append(boundedChecks["C06"], managerCheck("tasks-exactly-configured"), confdecCheck)
+	boundedChecks["C13"] = append(boundedChecks["C13"], managerCheck("tasks-exactly-configured"))
+	boundedChecks["C19"] = append(boundedChecks["C19"], confdecCheck)
 	boundedChecks["C04"] = append(boundedChecks["C04"], func(w *World, tier string, seed int, verif string) []boundedResult {
 		return []boundedResult{runHarness(w, verif, tier, seed, harnessSpec{
 			name: "task-names-agree", pkg: "shovel", pkgName: "shovel", dir: "manager", files: []string{"fakepg_test.go", "loadtasks_bounded_test.go"}, run: "TestVerifLoadTasksBounded",
@@ -167,19 +207,40 @@ func init() {
 	boundedChecks["C17"] = append(boundedChecks["C17"], func(w *World, tier string, seed int, verif string) []boundedResult {
 		return []boundedResult{runHarness(w, verif, tier, seed, harnessSpec{
 			name: "hex-helpers", pkg: "eth", pkgName: "eth", dir: "hex", files: []string{"hex_bounded_test.go"}, run: "TestVerifHexBounded",
-			bound: "DecodeHex against an independent specification for every hex string of length 0..3 (both letter cases, with and without 0x/0X prefix); EncodeHex/DecodeHex round trips for every byte string of length 0..1, a sixteenth of length 2, and seeded random strings of 20..4096 bytes (lower and upper case spelling); EncodeUint64/DecodeUint64 round trips at 13 boundary values and seeded random ones, with padding and upper case",
+			bound: "DecodeHex against an independent specification for every hex string of length 0..3 (both letter cases, with and without 0x/0X prefix); EncodeHex/DecodeHex round trips for every byte string of length 0..1, a sixteenth of length 2, and seeded random strings of 20..4096 bytes (lower and upper case spelling); EncodeUint64/DecodeUint64 round trips at 13 boundary values and seeded random ones, with padding and upper case; Bytes.MarshalJSON for lengths 0..70: the wire form is \"0x\" + lower-case hex and decoding it into a reused destination gives the same bytes",
 		})}
 	})
+	// a fault at the source must fail the step, not lose or misplace rows (C01), and
+	// must not put one item's data under another item (C11)
+	for _, pid := range []string{"C01", "C11"} {
+		pid := pid
+		boundedChecks[pid] = append(boundedChecks[pid], func(w *World, tier string, seed int, verif string) []boundedResult {
+			return []boundedResult{runHarness(w, verif, tier, seed, harnessSpec{
+				name: "corrupted-responses", pkg: "dig", pkgName: "dig", dir: "plan", files: []string{"plan_bounded_test.go", "corrupt_bounded_test.go"}, run: "TestVerifCorruptBounded",
+				bound: "see C07: 11 data plans x ranges 1..3 x single corruptions per RPC method, plus a lagging node: an accepted answer must carry the complete and correctly placed data of every requested block",
+			})}
+		})
+	}
+	// integrations with different log filters sharing the cached blocks of one client
+	for _, pid := range []string{"C08", "C04", "C12"} {
+		pid := pid
+		boundedChecks[pid] = append(boundedChecks[pid], func(w *World, tier string, seed int, verif string) []boundedResult {
+			return []boundedResult{runHarness(w, verif, tier, seed, harnessSpec{
+				name: "shared-client-log-filters", pkg: "dig", pkgName: "dig", dir: "plan", files: []string{"plan_bounded_test.go", "sharedlogs_bounded_test.go"}, run: "TestVerifSharedLogsBounded",
+				bound: "every transaction emits two logs from two contracts; three integrations (eth_getLogs restricted to the first contract, to the second, unrestricted) x {headers + logs, blocks + logs} plans on ONE client in 6 request orders (ABA, BAB, ABUAB, UAB, BUA, AUB) over 2 blocks x 2 transactions, the node applying the address restriction: every request stores exactly what an uncached client gives that integration, which is what the node reports for it",
+			})}
+		})
+	}
 	// what a block contributes to the table (C01/C02 treat it as "the rows of block n"):
 	// the same stand-ins that decide it for C11/C12/C14
 	// cached answers must be the answers of an uncached client: the shared-client
 	// scenarios of the all-pairs stand-in (different plans, different lengths on one client)
-	for _, pid := range []string{"C06", "C08", "C04"} {
+	for _, pid := range []string{"C06", "C08", "C04", "C05"} {
 		pid := pid
 		boundedChecks[pid] = append(boundedChecks[pid], func(w *World, tier string, seed int, verif string) []boundedResult {
 			return []boundedResult{runHarness(w, verif, tier, seed, harnessSpec{
 				name: "plan-all-pairs", pkg: "dig", pkgName: "dig", dir: "plan", files: []string{"plan_bounded_test.go"}, run: "TestVerifPlanBounded",
-				bound: "see C14; relevant here: 30 ordered pairs of data plans on one shared client (twice each) and, per plan, requests for the same first block with lengths (2,1,2), (1,2,1), (3,2,3) on one client: every answer must be what an uncached client would deliver (row counts and every stored value) - for C04: what one (source, integration) pair left in the shared client must not change the rows of another pair",
+				bound: "see C14; relevant here: 30 ordered pairs of data plans on one shared client (twice each) and, per plan, requests for the same first block with lengths (2,1,2), (1,2,1), (3,2,3) on one client: every answer must be what an uncached client would deliver (row counts and every stored value) - for C04: what one (source, integration) pair left in the shared client must not change the rows of another pair; for C05: a request for k blocks returns exactly k blocks (the dependency bound is enforced through the size of the request)",
 			})}
 		})
 	}
